@@ -11,6 +11,7 @@ mod common;
 mod orch;
 mod props;
 mod refs;
+mod scripted;
 mod shrink;
 mod simhttp;
 
